@@ -173,4 +173,17 @@ META["C20"] = {
     "technique": "TLA+ endpoint-selection model (TLC) + per-transition trace validation of the real topology + trace validation of real client calls",
 }
 
+META["C17"] = {
+    "text": "Sender.tla models the snapshot channel and the concurrent batchers (flush on a full batch at the next arrival, flush on the interval "
+            "timer); batch bound, exactly-once accounting (produced = published + held + in channel) and, under weak fairness of the timer, "
+            "eventual publication are model-checked over all interleavings. The real Sender runs on a real agent's outgoing bus with seeded "
+            "arrival patterns; TLC validates every batch (size, no duplicate, nothing unknown, configured TTL) and that nothing is left once "
+            "arrivals stop. Signatures are symbolic in the specification (Sig(m) verifies exactly m); the real ed25519 clause is exercised by "
+            "the harness: each published signature verifies, and every single-field change and every single signature-bit flip of sampled "
+            "snapshots (and another key) must fail.",
+    "note": "Trusted: TLC; the harness re-creates the signed message as fmt.Sprintf(\"%v\", snapshot) exactly as server/sender.go does (the repository has no "
+            "verifier for signed snapshots). Cryptographic strength of ed25519 is not a TLA+ matter: only the enumerated modifications are tried.",
+    "technique": "TLA+ batcher model incl. liveness (TLC) + trace validation of the real sender and signature tamper enumeration",
+}
+
 NOT_APPLICABLE = {}
